@@ -463,11 +463,27 @@ class SFixed(Template[_FixedTemplateArg], AssignableType):
                             else Signed[2](0)
                         )
 
-                    return Result(
-                        raw=Value[Signed[Result._width]](
-                            self._val.msb(rest=cutoff).signed.resize(Result._width)
-                            + do_round
+                    kept_bits = self._val.msb(rest=cutoff).signed.resize(Result._width)
+
+                    if (
+                        overflow_style is FixedOverflowStyle.SATURATE
+                        and selfleft == left
+                    ):
+                        # rounding up the largest value would carry out of the target range
+                        return Result(
+                            raw=Value[Signed[Result._width]](
+                                choose_first(
+                                    (
+                                        kept_bits == Signed[Result._width].max(),
+                                        Signed[Result._width].max(),
+                                    ),
+                                    default=kept_bits + do_round,
+                                )
+                            )
                         )
+
+                    return Result(
+                        raw=Value[Signed[Result._width]](kept_bits + do_round)
                     )
 
 
@@ -800,9 +816,27 @@ class UFixed(Template[_FixedTemplateArg], AssignableType):
                             else Unsigned[1](0)
                         )
 
-                    return Result(
-                        raw=Value[Unsigned[Result._width]](
-                            self._val.msb(rest=cutoff).unsigned.resize(Result._width)
-                            + do_round
+                    kept_bits = self._val.msb(rest=cutoff).unsigned.resize(
+                        Result._width
+                    )
+
+                    if (
+                        overflow_style is FixedOverflowStyle.SATURATE
+                        and selfleft == left
+                    ):
+                        # rounding up the largest value would carry out of the target range
+                        return Result(
+                            raw=Value[Unsigned[Result._width]](
+                                choose_first(
+                                    (
+                                        kept_bits == Unsigned[Result._width].max(),
+                                        Unsigned[Result._width].max(),
+                                    ),
+                                    default=kept_bits + do_round,
+                                )
+                            )
                         )
+
+                    return Result(
+                        raw=Value[Unsigned[Result._width]](kept_bits + do_round)
                     )
